@@ -46,6 +46,7 @@ var c43NotTableHandlers = map[string]string{
 
 func runC43(w *World, r *Report) {
 	c43TransactionOwner(w, r)
+	c43TransactionDSN(w, r)
 	r.Rule("R-C43-1", "must-pass-through (edge cut): in each table route handler every statement-executing call (Database.Exec/Query/Begin or an in-package helper that reaches one) is unreachable once the edges {Session.Admin true, Authorized(...) true} are removed", 10)
 	r.Rule("R-C43-2", "operation agreement: every Authorized call passes at least one constant permission, and in a route handler that permission matches the route's HTTP method", 10)
 	r.Rule("R-C43-3", "tables.Authorized: with every granted edge removed and at least one operation requested, no consistent path returns a possibly-true result except through {administrator, unrestricted DSN, permissions not configured}; the grant lookup filters on existing columns user, dsn, table", 2)
@@ -894,5 +895,102 @@ func c43TransactionOwner(w *World, r *Report) {
 
 	if n == 0 {
 		r.Anchor("R-C43-6", "uses of a transaction looked up by id in package tables")
+	}
+}
+
+// c43TransactionDSN: R-C43-7. The row handlers judge table grants by the DSN
+// named in the request, and run the statement on the database handle
+// GetDatabase gives them. For a request that names a transaction that handle
+// is the transaction's: unless GetDatabase makes sure the transaction is one on
+// the DSN the request names, a grant for the table of one DSN opens the table
+// of that name in another.
+func c43TransactionDSN(w *World, r *Report) {
+	r.Rule("R-C43-7", "a transaction serves only requests addressed to its own DSN: tables.GetDatabase returns the handle of a transaction found by id only through the true edge of a comparison of the handle's DSN with the DSN name it was asked for", 1)
+
+	tp := w.pkg("internal/server/tables")
+	if tp == nil {
+		return
+	}
+
+	fn := w.ssaFunc(tp, "GetDatabase")
+	if fn == nil {
+		r.Anchor("R-C43-7", "tables.GetDatabase")
+
+		return
+	}
+
+	var dsnParam ssa.Value
+
+	for _, p := range fn.Params {
+		if b, ok := p.Type().Underlying().(*types.Basic); ok && b.Kind() == types.String {
+			dsnParam = p
+		}
+	}
+
+	var source *ssa.Call
+
+	allInstrs(fn, func(in ssa.Instruction) {
+		if c, ok := in.(*ssa.Call); ok && callID(c.Common()) == "internal/server/tables.GetTransactionDB" {
+			source = c
+		}
+	})
+
+	if dsnParam == nil || source == nil {
+		r.Anchor("R-C43-7", "the DSN-name parameter and the GetTransactionDB call of tables.GetDatabase")
+
+		return
+	}
+
+	isHandleDSN := func(v ssa.Value) bool {
+		return derivesFrom(v, func(s ssa.Value) bool {
+			u, ok := s.(*ssa.UnOp)
+			if !ok {
+				return false
+			}
+
+			fa, ok := u.X.(*ssa.FieldAddr)
+
+			return ok && fieldName(fa.X.Type(), fa.Field) == "DSN" && strings.HasSuffix(fa.X.Type().String(), "database.Database")
+		}, nil)
+	}
+
+	isAsked := func(v ssa.Value) bool {
+		return v == dsnParam || derivesFrom(v, func(s ssa.Value) bool { return s == dsnParam }, func(string) bool { return true })
+	}
+
+	cuts := cutEdges(fn, func(f Fact) bool {
+		if f.Kind != "true" {
+			return false
+		}
+
+		switch x := f.V.(type) {
+		case *ssa.BinOp:
+			return x.Op == token.EQL && ((isHandleDSN(x.X) && isAsked(x.Y)) || (isHandleDSN(x.Y) && isAsked(x.X)))
+		case *ssa.Call:
+			if callID(x.Common()) == "strings.EqualFold" && len(x.Call.Args) == 2 {
+				return (isHandleDSN(x.Call.Args[0]) && isAsked(x.Call.Args[1])) || (isHandleDSN(x.Call.Args[1]) && isAsked(x.Call.Args[0]))
+			}
+		}
+
+		return false
+	})
+
+	key := "tables.GetDatabase|transaction on the DSN the request names"
+	bad := ""
+
+	for _, ret := range returnsOf(fn) {
+		for _, res := range retResults(ret) {
+			if strings.HasSuffix(res.Type().String(), "database.Database") && !isNilConst(res) && derivesFrom(res, func(s ssa.Value) bool { return s == ssa.Value(source) }, nil) {
+				if len(cuts) == 0 || instrReachableAfterCut(fn, ret, cuts) {
+					bad = w.pos(ret.Pos())
+				}
+			}
+		}
+	}
+
+	if bad != "" {
+		r.Violate("R-C43-7", key, bad, "the handle of a transaction is returned whatever DSN the request names: the caller judges the table grant by the request's DSN and runs the statement on the transaction's database, so a user with a grant for d2.t and an open transaction on d1 reads d1.t by sending the d2 request with the d1 transaction's id")
+	} else {
+		r.Discharge("R-C43-7", key, w.pos(fn.Pos()), "only behind the comparison of the handle's DSN with the requested DSN")
 	}
 }
